@@ -181,6 +181,10 @@ def expected (rows : Rows) (argv : List String) : Option String :=
     let (rs, _, _) := compress rows L
     some (ok rs)
   | ["sort"] => some (ok (pairs (sortRows (addAllStop (newAlign 1) rows).1)))
+  | ["sort", "--unaligned"] =>
+    -- plain sequences of any lengths (the generator gives distinct names)
+    if (rows.map Prod.fst).eraseDups.length != rows.length || rows.any (·.2.isEmpty) then none else
+    some (ok (pairs (sortRows (addAllIgnore (newBag 1) rows))))
   | "translate" :: "--ref-seq" :: name :: fl => do
     let ph ← parseInt? ((opt fl "--phase").getD (← effective "translateCmd" "phase"))
     let code : Int := match (opt fl "--genetic-code").getD (← effective "translateCmd" "genetic-code") with
@@ -207,6 +211,25 @@ def expected (rows : Rows) (argv : List String) : Option String :=
   | ["stats", "taxa"] => some ("rc=0 out=" ++ String.join (rows.zipIdx.map fun (r, i) => toString i ++ " " ++ r.1 ++ "|"))
   | ["stats", "gaps"] => some ("rc=0 out=" ++ String.join (rows.map fun r => r.1 ++ " " ++ toString (r.2.count GAP) ++ "|"))
   | ["diff"] => some (ok (diffWithFirst rows))
+  | "diff" :: fl => do
+    -- cmd/diff.go: `--counts` (priority) prints, for every row but the first, how often each pair (reference character,
+    -- its character) occurs - the pairs sorted, those with a gap left out with `--no-gaps`; `--reverse` puts the
+    -- characters of the first row back where a row has `.`; else `DiffWithFirst`
+    if !(fl.all fun a => ["--counts", "--no-gaps", "--reverse"].contains a) then none
+    if (← effective "diffCmd" "output") != "stdout" then none
+    let counts := flag fl "--counts" || (← effective "diffCmd" "counts") == "true"
+    let noGaps := flag fl "--no-gaps" || (← effective "diffCmd" "no-gaps") == "true"
+    let rev := flag fl "--reverse" || (← effective "diffCmd" "reverse") == "true"
+    if counts then
+      if rows.any (fun r => r.2.any (· ≥ 128)) then none else
+      let (all, per) := countDifferences rows
+      let key (p : Byte × Byte) : String := stringOfBytes [p.1, p.2]
+      let keys := ((all.map key).mergeSort fun a b => decide (a ≤ b)).filter fun k => !(noGaps && k.contains '-')
+      let line (nm : String) (ds : List ((Byte × Byte) × Nat)) : String :=
+        nm ++ String.join (keys.map fun k => " " ++ toString (((ds.find? fun d => key d.1 == k).map (·.2)).getD 0)) ++ "|"
+      some ("rc=0 out=" ++ String.join (keys.map fun k => " " ++ k) ++ "|" ++ String.join (((rows.drop 1).zip per).map fun (r, ds) => line r.1 ds))
+    else if rev then some (ok (replaceMatchChars rows))
+    else some (ok (diffWithFirst rows))
   | "revcomp" :: rest =>
     -- cmd/revcomp.go: names given -> only those rows; `--unaligned` reads and writes plain sequences
     let names := rest.filter (· != "--unaligned")
@@ -524,24 +547,60 @@ def expectedF (rows : Rows) (files : List (String × String)) (argv : List Strin
       match subsetExpected rows given.eraseDups (fl.filter fun a => a.startsWith "-" && a != "-f" && a != "--name-file") with
       | some r => some (r ++ " files=")
       | none => none
-  | "concat" :: other :: fl => do
-    -- cmd/concat.go: the alignment of stdin, then the one of the file; `-l` writes the coordinates
-    let o ← fileRows other
-    -- a file whose rows do not form an alignment is refused by the reader
-    if (addAllStop (newAlign 1) o).2 || o.isEmpty then some badF else
-    let ob := bagOf o
-    let r := concat (pairs ob) ob.length ob.alphabet (bagOf rows)
-    if r.2 then some badF else
-    let la := (lenOf rows).toNat; let lo := (lenOf o).toNat
-    let log := match opt fl "-l" with
-      | some lf => lf ++ "=" ++ "0 " ++ toString la ++ " stdin|" ++ toString la ++ " " ++ toString (la + lo) ++ " " ++ other ++ "|"
-      | none => ""
-    some (okF (pairs r.1) log)
-  | ["append", other] => do
-    let o ← fileRows other
-    if (addAllStop (newAlign 1) o).2 || o.isEmpty then some badF else
-    let r := appendRows (pairs (bagOf o)) (bagOf rows)
-    some (if r.2 then badF else okF (pairs r.1) "")
+  | "concat" :: fl => do
+    -- cmd/concat.go: the alignment of stdin (left out with `-i none`), then the alignment of every file in the order
+    -- given; `-l` writes one line `start end source` per alignment (the source of stdin is the word `stdin`)
+    if (← effective "concatCmd" "output") != "stdout" then none
+    let logf := ((opt fl "-l").orElse fun _ => opt fl "--log").getD (← effective "concatCmd" "log")
+    let noStdin := opt fl "-i" == some "none"
+    let rec names : List String → Option (List String)
+      | [] => some []
+      | a :: t =>
+        if a == "-l" || a == "--log" || a == "-i" then (match t with | _ :: t' => names t' | [] => none)
+        else if a.startsWith "-" then none else (names t).map (a :: ·)
+    let others ← names fl
+    if opt fl "-i" != none && !noStdin then none
+    -- a file that does not exist: a failing status
+    match others.mapM fun n => (fileRows n).map fun r => (n, r) with
+    | none => some badF
+    | some os =>
+    let srcs : List (String × Rows) := (if noStdin then [] else [("stdin", rows)]) ++ os
+    -- `cur` = the alignment so far (`none` before the first one), the next start, the log
+    let step (acc : Option (Option Bag × Nat × String)) (src : String × Rows) : Option (Option Bag × Nat × String) :=
+      match acc with
+      | none => none
+      | some (cur, start, log) =>
+        -- a file whose rows do not form an alignment is refused by the reader
+        if (addAllStop (newAlign 1) src.2).2 || src.2.isEmpty then none else
+        let ob := bagOf src.2
+        let len := (lenOf src.2).toNat
+        let log := log ++ toString start ++ " " ++ toString (start + len) ++ " " ++ src.1 ++ "|"
+        match cur with
+        | none => some (some ob, start + len, log)
+        | some b =>
+          let r := concat (pairs ob) ob.length ob.alphabet b
+          if r.2 then none else some (some r.1, start + len, log)
+    match srcs.foldl step (some (none, 0, "")) with
+    | none => some badF
+    | some (none, _, _) => none
+    | some (some b, _, log) =>
+      if logf == "none" then some (okF (pairs b) "") else some (okF (pairs b) (← filesPart [(logf, log)]))
+  | "append" :: others => do
+    -- cmd/append.go: the rows of every file, in the order given, appended to the alignment of stdin
+    if others.isEmpty || others.any (·.startsWith "-") || (← effective "appendCmd" "output") != "stdout" then none
+    let step (acc : Option Bag) (n : String) : Option (Option Bag) :=
+      match acc, fileRows n with
+      | _, none => some none         -- a file that does not exist
+      | none, _ => some none
+      | some b, some o =>
+        if (addAllStop (newAlign 1) o).2 || o.isEmpty then some none else
+        let r := appendRows (pairs (bagOf o)) b
+        some (if r.2 then none else some r.1)
+    let res ← others.foldlM (fun acc n => step acc n) (some (bagOf rows))
+    match res with
+    | none => some badF
+    | some b => some (okF (pairs b) "")
+  | ["sort", "-o", f] => do some ("rc=0 out= files=" ++ (← filesPart [(f, fasta (pairs (sortRows (bagOf rows))))]))
   | "dedup" :: fl => do
     -- cmd/dedup.go: the alignment without the repeated rows on stdout; `-l`: one line per kept row, its name and
     -- the names of the rows identical to it, comma separated (also when nothing is identical to it)
